@@ -7,6 +7,10 @@
 //	1 TRUNC : procs frames | runs          -- EVERY byte offset of the file is a cut; the
 //	          observations of consecutive cuts are run-length coded (k_lo k_hi objs outcome)
 //	2 DAMAGE: frames damaged_frame | (procs objs outcome)*   -- one damage class at one block
+//	3 WHOLE : frames | (procs objs outcome)*   -- a valid file at the limits: every object, no error
+//	4 TRAILER: like 2, for bytes after a complete zlib stream (error or success with everything)
+//	5 SKIPDMG: skip flags, frames, damaged_frame | (procs objs outcome)* | tree   -- in-block damage
+//	          inside an element kind the scan skips: success with the objects of the other kinds
 //
 // outcome: 0 Err()==nil, 1 Err()!=nil, 2 the process crashed, 3 hang.
 package main
@@ -18,6 +22,7 @@ import (
 	"math"
 	"math/rand"
 	"os"
+	"strings"
 
 	"verif/harness/pbfgen"
 	"verif/harness/pbfrun"
@@ -37,6 +42,9 @@ type file struct {
 	hook func(idx int, h, b []pbfgen.Field) ([]pbfgen.Field, []pbfgen.Field)
 	// empties: positions at which intact empty blocks were inserted (kept by build copies)
 	empties []emptyAt
+	// allocLimit > 0: the scans of this file also report the MiB the Go heap handed out, and more
+	// than allocLimit is an oracle failure (zip bomb: memory must follow raw_size, not the stream)
+	allocLimit int64
 }
 
 type emptyAt struct {
@@ -519,6 +527,108 @@ func damageCase(w *wire.Writer, r *pbfrun.Runner, base *file, dm *dmg, pos int, 
 	return observeDamage(w, r, f, dm.name, pos, dm.inBlock, 2)
 }
 
+// skipKind: the element kind (0 nodes, 1 ways, 2 relations) an in-block damage class lives in, or
+// -1 when skipping one kind does not hide the damage (framing damage, a removed string table, a
+// plain Node group: rejected before the skip flags are looked at)
+func skipKind(dm *dmg) int {
+	if !dm.inBlock || strings.HasPrefix(dm.name, "stringtable_removed") || dm.name == "plain_node" {
+		return -1
+	}
+	switch {
+	case strings.Contains(dm.name, "dense"):
+		return 0
+	case strings.Contains(dm.name, "way"):
+		return 1
+	case strings.Contains(dm.name, "rel"):
+		return 2
+	}
+	return -1
+}
+
+// skipDamageCase: the same damaged file scanned with the Skip flag of the damaged element kind.
+// The scanner does not read a kind it skips (decode_data.go steps over the field), so the damage
+// cannot be noticed: the expected outcome is success with every element of the other kinds, the
+// damaged block's included (Coq: C06/Skip.v skipped_kind_is_not_read; case kind 5).
+func skipDamageCase(w *wire.Writer, r *pbfrun.Runner, base *file, dm *dmg, pos int, rng *rand.Rand) (*wire.Case, error) {
+	k := skipKind(dm)
+	if k < 0 {
+		return nil, nil
+	}
+	f := build(base.seed, base.opts).withEmpties(base.empties)
+	if !dm.apply(f, pos, rng) {
+		return nil, nil
+	}
+	f.encode()
+	var skip [3]bool
+	skip[k] = true
+	if rng.Intn(3) == 0 {
+		skip[(k+1+rng.Intn(2))%3] = true
+	}
+	// the description the objects are computed from: the damaged block without the items of the
+	// skipped kinds (their content is damaged and is not to be read, by the oracle either)
+	dd := *f.desc
+	dd.Blocks = append([]*pbfgen.Block{}, f.desc.Blocks...)
+	nb := *f.desc.Blocks[pos]
+	nb.Groups = nil
+	for _, g := range f.desc.Blocks[pos].Groups {
+		ng := &pbfgen.Group{}
+		for _, it := range g.Items {
+			if (it.Dense != nil && skip[0]) || (it.Way != nil && skip[1]) || (it.Relation != nil && skip[2]) {
+				continue
+			}
+			ng.Items = append(ng.Items, it)
+		}
+		nb.Groups = append(nb.Groups, ng)
+	}
+	dd.Blocks[pos] = &nb
+	fds := pbfrun.Describe(&dd, f.data, f.frames, skip, nil)
+	var exp []uint64
+	di := -1
+	for i := range fds {
+		if fds[i].Block == pos {
+			di = i
+		}
+		exp = append(exp, fds[i].Objs...)
+	}
+	c := &wire.Case{Class: "skipdmg:" + dm.name}
+	c.Int(5)
+	c.Bool(skip[0])
+	c.Bool(skip[1])
+	c.Bool(skip[2])
+	pbfrun.EmitFrames(c, fds)
+	c.Int(int64(di))
+	c.Len(len(procsList))
+	var seen []interface{}
+	for _, p := range procsList {
+		obs, err := r.Run(pbfrun.Job{Data: f.data, Procs: p, Skip: skip, Mode: "cut", Units: []int{len(f.data)}})
+		if err != nil {
+			return nil, err
+		}
+		o := &obs[0]
+		oc := outcome(o)
+		c.Int(int64(p))
+		pbfrun.EmitToks(c, o.Objs)
+		c.Int(oc)
+		seen = append(seen, map[string]interface{}{"procs": p, "objs": o.Objs, "outcome": oc, "msg": o.ErrText + o.CrashMsg})
+		if c.OracleFail == "" && (oc != 0 || !eqToks(o.Objs, exp)) {
+			c.OracleFail = fmt.Sprintf("damage %s at block %d inside an element kind the scan skips (skip %v), procs %d: %d objects outcome %d (%s), expected the %d objects of the other kinds and no error",
+				dm.name, pos, skip, p, len(o.Objs), oc, o.ErrText+o.CrashMsg, len(exp))
+		}
+		w.Count(fmt.Sprintf("skipdmg:outcome=%d", oc))
+	}
+	payload := pbfgen.Serialize(pbfgen.BlockTree(f.desc.Blocks[pos]))
+	tree, err := pbfgen.Parse(payload, pbfgen.BlockSchema)
+	if err != nil {
+		return nil, err
+	}
+	if err := pbfwire.PutTree(c, tree); err != nil {
+		return nil, err
+	}
+	c.Desc = map[string]interface{}{"kind": "in-block damage inside a skipped element kind", "class": dm.name, "block": pos, "skip": skip,
+		"file_seed": f.seed, "size": len(f.data), "observed": seen, "expected_objects": exp, "file": f.desc}
+	return c, nil
+}
+
 // observeDamage scans the (already encoded) damaged file with every decoder count and writes the
 // case.  tag 2: the scan must end in an error after the intact blocks; tag 4 (zlib stream without
 // its adler32 trailer, data intact): either that, or success with every object.
@@ -569,12 +679,19 @@ func observeDamage(w *wire.Writer, r *pbfrun.Runner, f *file, name string, pos i
 	var obsl []ob
 	for _, rc := range cfgs {
 		p := rc.procs
-		obs, err := r.Run(pbfrun.Job{Data: f.data, Procs: p, Mode: "cut", Units: []int{len(f.data)}, HeaderFirst: rc.hf})
+		obs, err := r.Run(pbfrun.Job{Data: f.data, Procs: p, Mode: "cut", Units: []int{len(f.data)}, HeaderFirst: rc.hf, Alloc: f.allocLimit > 0})
 		if err != nil {
 			return nil, err
 		}
 		o := &obs[0]
 		oc := outcome(o)
+		if f.allocLimit > 0 {
+			w.Count(fmt.Sprintf("%s:alloc_mib<=%d", name, (o.AllocMiB/32+1)*32))
+			if c.OracleFail == "" && o.AllocMiB > f.allocLimit {
+				c.OracleFail = fmt.Sprintf("damage %s at block %d, procs %d: the scan allocated %d MiB for a file of %d bytes whose blobs announce raw sizes below 1 MiB (limit %d MiB): memory follows what the zlib stream inflates to, not raw_size",
+					name, pos, p, o.AllocMiB, len(f.data), f.allocLimit)
+			}
+		}
 		if o.Skipped {
 			oc = 3
 		}
@@ -729,6 +846,46 @@ func trailingGarbage(f *file, pos int, garbage []byte) {
 	})
 }
 
+// zipBomb: block pos is zlib compressed and its stream inflates to the payload followed by mib MiB
+// of zeros, while raw_size stays the size of the payload (class "wrong uncompressed size", with a
+// stream that is cheap to store and expensive to inflate); datasize is adjusted.
+func zipBomb(f *file, pos int, mib int) {
+	opts(f, pos).Zlib = true
+	f.data, f.frames = encodeHook(f.desc, func(idx int, h, b []pbfgen.Field) ([]pbfgen.Field, []pbfgen.Field) {
+		if idx != pos {
+			return h, b
+		}
+		for i := range b {
+			if b[i].Num == 3 && b[i].Kind == pbfgen.KBytes {
+				zr, err := zlib.NewReader(bytes.NewReader(b[i].Bytes))
+				if err != nil {
+					panic(err)
+				}
+				var payload, z bytes.Buffer
+				if _, err := payload.ReadFrom(zr); err != nil {
+					panic(err)
+				}
+				zw := zlib.NewWriter(&z)
+				zw.Write(payload.Bytes())
+				zeros := make([]byte, 1<<20)
+				for k := 0; k < mib; k++ {
+					zw.Write(zeros)
+				}
+				zw.Close()
+				b[i].Bytes = z.Bytes()
+			}
+		}
+		ds := len(pbfgen.Serialize(b))
+		for i := range h {
+			if h[i].Num == 3 && h[i].Kind == pbfgen.KVarint {
+				h[i].Var = uint64(ds)
+			}
+		}
+		return h, b
+	})
+	f.allocLimit = 32 + int64(mib)/2
+}
+
 // bigBlobFile: header, one ordinary block, and a last OSMData block whose Blob message is exactly
 // blobLen bytes (a raw blob; the PrimitiveBlock is padded with an unknown bytes field, which
 // readers skip).  The frames and the description are extended by hand.
@@ -875,6 +1032,16 @@ func main() {
 				}
 				w.Add(c)
 			}
+			// the same damage with the Skip flag of its element kind (one block position)
+			if skipKind(dm) >= 0 && len(poss) > 0 && !r.GaveUp() {
+				c, err := skipDamageCase(w, r, f, dm, poss[rng.Intn(len(poss))], rng)
+				if err != nil {
+					fail(err)
+				}
+				if c != nil {
+					w.Add(c)
+				}
+			}
 		}
 	}
 
@@ -894,7 +1061,7 @@ func main() {
 			name    string
 			corrupt int
 			tag     int64
-		}{{"zlib_checksum", 1, 2}, {"zlib_middle", 2, 2}, {"zlib_header", 4, 2}, {"zlib_trailer", 3, 4}, {"zlib_trailing_garbage", 100, 4}}
+		}{{"zlib_checksum", 1, 2}, {"zlib_middle", 2, 2}, {"zlib_header", 4, 2}, {"zlib_trailer", 3, 2}, {"zlib_trailing_garbage", 100, 4}, {"zlib_bomb", 101, 2}}
 		nz := 2
 		if a.Tier == "thorough" {
 			nz = 6
@@ -910,7 +1077,7 @@ func main() {
 					continue
 				}
 				for _, cl := range classes {
-					if build == "cgo" && cl.tag == 2 {
+					if build == "cgo" && (cl.corrupt == 1 || cl.corrupt == 2 || cl.corrupt == 4) {
 						continue // already covered by the damage classes above
 					}
 					poss := []int{}
@@ -922,7 +1089,12 @@ func main() {
 					}
 					for _, pos := range poss {
 						f := buildCopy(base)
-						if cl.corrupt == 100 {
+						if cl.corrupt == 101 {
+							if pos > 1 {
+								continue
+							}
+							zipBomb(f, pos, 64)
+						} else if cl.corrupt == 100 {
 							trailingGarbage(f, pos, [][]byte{{0}, {0xde, 0xad, 0xbe, 0xef, 1, 2, 3}}[(i+pos+2)%2])
 						} else {
 							o := opts(f, pos)
